@@ -172,6 +172,12 @@ def run(ctx):
             steps = len({l_ for _k, l_, _t in sw.records})
             if any("before the object is complete" in k_ for k_ in sw.kinds):
                 steps = max(steps, 2)
+            fi_o = w.model.funcs.get(sw.origin_func)
+            if fi_o is not None:
+                rec_lines = {l_ for _k, l_, _t in sw.records}
+                for lp in ast.walk(fi_o.node):
+                    if isinstance(lp, (ast.For, ast.While)) and any(getattr(x, "lineno", 0) in rec_lines for b_ in lp.body for x in ast.walk(b_)):
+                        steps = max(steps, 2)          # filled entry by entry in a loop
             if loose and steps > 1:
                 ctx.bad("C16.1", f"shared object {sw.name} is built in several steps under the lock {lk} but read without it", where,
                         f"`{sw.origin_text}` in {sw.origin_func} (and {steps - 1} more writing statements) hold {lk}; {loose[0][0]} line {loose[0][1]} "
